@@ -1,7 +1,10 @@
 """C16 reducer clause, bounded: apply_output_reducers(reducers, branches)[k] is defined iff some branch has k and equals
 reducer(k) applied to the branch values in branch order; sum / max / min give the same result for every permutation of the
 branches; unknown reducer names raise ValueError.
-Bound: up to 4 branches, values from {None, 0, 1, 2, 5, -3} (ints), every permutation; quick uses 3 branches."""
+collect / append / extend flatten list values, keep duplicates and give the same multiset in every branch order; merge is a
+shallow merge in branch order.
+Bound: up to 4 branches (quick: 3); scalar values from {None, 0, 1, 2, 5, -3}, list values from {1, [1], [1,2], [2,3], [], None},
+dict values from {{a:1}, {a:2,b:1}, {b:3}, {}, None, 7}; every permutation."""
 import itertools
 
 from _b import *
@@ -58,10 +61,54 @@ for n in range(0, N + 1):
                             break
         if len(samples) < 3 and n == N:
             samples.append({"branches": branches})
+# ---- list-valued branches (collect / append / extend flatten a branch's list, keep duplicates, keep a scalar as one element) and
+# dict-valued branches (merge: shallow, a later branch wins); collect / append / extend combine ALL values: the result is the
+# same multiset whatever the branch order
+LVALS = [1, [1], [1, 2], [2, 3], [], None]
+
+
+def lspec(name, vs):
+    out = []
+    for v in vs:
+        if isinstance(v, list):
+            out.extend(v)
+        elif name in ("collect", "append") or v is not None:
+            out.append(v)
+    return out
+
+
+for n in range(1, N + 1):
+    for combo in itertools.product(LVALS, repeat=n):
+        branches = [{"k": v} for v in combo]
+        for name in ("collect", "append", "extend"):
+            cases += 1
+            nontrivial += any(isinstance(v, list) and v for v in combo)
+            got = apply_output_reducers({"k": name}, [dict(b) for b in branches])
+            want = lspec(name, list(combo))
+            if got.get("k") != want:
+                failures.append({"reducer": name, "branches": branches, "got": got, "want": want})
+                continue
+            key = lambda xs: sorted(map(repr, xs))
+            for perm in itertools.permutations(branches):
+                g2 = apply_output_reducers({"k": name}, [dict(b) for b in perm])
+                if key(g2["k"]) != key(want):
+                    failures.append({"reducer": name, "branches": branches, "perm": list(perm), "got": g2, "why": "not the same multiset in another branch order"})
+                    break
+DVALS = [{"a": 1}, {"a": 2, "b": 1}, {"b": 3}, {}, None, 7]
+for n in range(1, N + 1):
+    for combo in itertools.product(DVALS, repeat=n):
+        cases += 1
+        want = {}
+        for v in combo:
+            if isinstance(v, dict):
+                want.update(v)
+        got = apply_output_reducers({"k": "merge"}, [{"k": v} for v in combo])
+        if got.get("k") != want:
+            failures.append({"reducer": "merge", "branches": list(combo), "got": got, "want": want})
 try:
     apply_output_reducers({"k": "no_such_reducer"}, [{"k": 1}])
     failures.append({"why": "unknown reducer accepted"})
 except ValueError:
     pass
 cases += 1
-done(cases, nontrivial, failures, f"<= {N} branches, values in {VALS} or missing, all permutations for sum/max/min", samples)
+done(cases, nontrivial, failures, f"<= {N} branches; scalars {VALS} or missing, lists {LVALS}, dicts {DVALS}; all permutations for sum/max/min/collect/append/extend", samples)
